@@ -2,7 +2,7 @@
 
 import ast
 
-from ..core.absint import OS_CONSTS, Interp, alternatives, pretty
+from ..core.absint import OS_CONSTS, Interp, alternatives, result_alternatives, pretty
 from ..core.analysis import Analysis, facts
 from ..core.astutil import enclosing_trys, handler_catches
 from ..core.cfg import decompose_guard
@@ -145,7 +145,7 @@ def run(ctx):
              "1 column 1 parsed in base 8; fd is the directory entry; the mode is "
              "derived from those flags", floor=4)
     t = canon(I.call_function(of, []))
-    recs = [x for a in alternatives(t) if a[0] == "listof" for x in alternatives(a[1])
+    recs = [x for a in result_alternatives(t) if a[0] == "listof" for x in alternatives(a[1])
             if x[0] == "nt"]
     ctx.require(recs, f"open_files(): no popenfile record: {pretty(t)[:100]}")
     rec = dict(zip(recs[0][2], recs[0][3]))
